@@ -415,6 +415,29 @@ pub fn map_op<const N: usize>(cx: &mut Cx, m: &mut MapN<N>, op: &MapOp) -> Strin
         MapOp::Len => format!("{}", mm(|| m.len())),
         MapOp::IsEmpty => format!("{}", mm(|| m.is_empty()) as u8),
         MapOp::Capacity => format!("{}", mm(|| m.capacity())),
+        MapOp::Defaults => {
+            let d: MapN<N> = mm(Map::default);
+            let mut out = vec![format!("{}", mm(|| d.len())), format!("{}", mm(|| d.capacity()))];
+            macro_rules! probe {
+                ($it:expr) => {{
+                    let mut it = $it;
+                    out.push(match mm(|| it.next()) {
+                        None => "-".into(),
+                        Some(_) => "+".into(),
+                    });
+                    out.push(format!("{}", mm(|| it.len())));
+                }};
+            }
+            probe!(mm(micromap::Iter::<Key, Val>::default));
+            probe!(mm(micromap::Keys::<Key, Val>::default));
+            probe!(mm(micromap::Values::<Key, Val>::default));
+            probe!(mm(micromap::IterMut::<Key, Val>::default));
+            probe!(mm(micromap::ValuesMut::<Key, Val>::default));
+            probe!(mm(micromap::IntoIter::<Key, Val, N>::default));
+            probe!(mm(micromap::IntoKeys::<Key, Val, N>::default));
+            probe!(mm(micromap::IntoValues::<Key, Val, N>::default));
+            format!("[{}]", out.join(","))
+        }
         MapOp::Drain(take, end) => {
             let d = mm(|| m.drain());
             consume(cx, d, *take, *end, |x: &(Key, Val)| show_pair(&x.0, &x.1), Some(|cx: &mut Cx, i: &_| dbg_of(cx, i)))
@@ -450,7 +473,8 @@ pub fn map_op<const N: usize>(cx: &mut Cx, m: &mut MapN<N>, op: &MapOp) -> Strin
                 })
             }
             IterKind::IterMut => {
-                let it = mm(|| m.iter_mut());
+                // `for (k, v) in &mut map` and `map.iter_mut()` are the same iterator
+                let it = if *add % 2 == 0 { mm(|| (&mut *m).into_iter()) } else { mm(|| m.iter_mut()) };
                 run_script(cx, it, script, None, |cx, (k, v)| {
                     v.val += *add;
                     format!("@{}={}", cx.slot(k as *const Key as usize), show_pair(k, v))
@@ -742,6 +766,10 @@ pub fn set_op<const N: usize>(cx: &mut Cx, s: &mut SetN<N>, op: &SetOp) -> Strin
         SetOp::Len => format!("{}", mm(|| s.len())),
         SetOp::IsEmpty => format!("{}", mm(|| s.is_empty()) as u8),
         SetOp::Capacity => format!("{}", mm(|| s.capacity())),
+        SetOp::Defaults => {
+            let d: SetN<N> = mm(Set::default);
+            format!("[{},{}]", mm(|| d.len()), mm(|| d.capacity()))
+        }
         SetOp::Drain(take, end) => {
             let d = mm(|| s.drain());
             consume(cx, d, *take, *end, |k: &Key| k.show(), None::<fn(&mut Cx, &_) -> String>)
@@ -759,6 +787,15 @@ pub fn set_op<const N: usize>(cx: &mut Cx, s: &mut SetN<N>, op: &SetOp) -> Strin
             let src = Src::new(items, *pulls);
             mm(|| s.extend(src));
             "()".into()
+        }
+        SetOp::ExtendRef(init, xs) => {
+            let mut c: Set<u16, N> = mm(Set::new);
+            for x in init {
+                mm(|| c.insert(*x));
+            }
+            mm(|| c.extend(xs.iter()));
+            let items: Vec<String> = c.iter().map(|x| x.to_string()).collect();
+            format!("[{},[{}]]", mm(|| c.len()), items.join(","))
         }
         SetOp::Fmt(kind) => {
             match kind {
@@ -909,6 +946,13 @@ pub fn set_alg<const N: usize, const M: usize>(
         AlgKind::Intersection => alg_script(cx, mm(|| a.intersection(b)), script),
         AlgKind::Union => alg_script(cx, mm(|| a.union(b)), script),
         AlgKind::SymmetricDifference => alg_script(cx, mm(|| a.symmetric_difference(b)), script),
+        AlgKind::DifferenceRef => {
+            // sets of references into the operands (built through `FromIterator`, which compares)
+            let ra: Set<&Key, N> = mm(|| a.iter().collect());
+            let rb: Set<&Key, M> = mm(|| b.iter().collect());
+            let it = mm(|| ra.difference_ref(&rb));
+            alg_script(cx, it, script)
+        }
     }
 }
 
